@@ -130,14 +130,23 @@ func cellLoad(u *ssa.UnOp) (ssa.Value, bool) {
 	default:
 		return nil, false
 	}
+	st, ok := ReachingStore(alloc, site, site != ssa.Instruction(u))
+	if !ok {
+		return nil, false
+	}
+	return st.Val, true
+}
+
+// ReachingStore returns the unique whole-cell store to alloc that reaches
+// site (an instruction of alloc's function).
+func ReachingStore(alloc *ssa.Alloc, site ssa.Instruction, inClosure bool) (*ssa.Store, bool) {
 	stores := StoresTo(alloc)
 	if len(stores) == 0 {
 		return nil, false
 	}
 	if len(stores) == 1 {
-		return stores[0].Val, true
+		return stores[0], true
 	}
-	inClosure := site != ssa.Instruction(u)
 	owner := alloc.Parent()
 	var best *ssa.Store
 	for _, st := range stores {
@@ -168,7 +177,43 @@ func cellLoad(u *ssa.UnOp) (ssa.Value, bool) {
 			return nil, false
 		}
 	}
-	return best.Val, true
+	return best, true
+}
+
+// StructFieldSource: if v is field `name` of a struct value — either a Field
+// instruction, or a load of a FieldAddr of a local struct cell whose reaching
+// whole-struct store is unique and which has no field-level stores — it
+// returns that struct value.
+func StructFieldSource(v ssa.Value) (structVal ssa.Value, name string, ok bool) {
+	v = Strip(v)
+	switch x := v.(type) {
+	case *ssa.Field:
+		return Resolve(x.X), fieldName(x.X.Type(), x.Field), true
+	case *ssa.UnOp:
+		if x.Op != token.MUL {
+			return nil, "", false
+		}
+		fa, isFA := x.X.(*ssa.FieldAddr)
+		if !isFA {
+			return nil, "", false
+		}
+		al, isAl := fa.X.(*ssa.Alloc)
+		if !isAl {
+			return nil, "", false
+		}
+		// no field-level stores anywhere
+		for _, ref := range *al.Referrers() {
+			if fa2, ok := ref.(*ssa.FieldAddr); ok && len(StoresTo(fa2)) > 0 {
+				return nil, "", false
+			}
+		}
+		st, ok := ReachingStore(al, x, false)
+		if !ok {
+			return nil, "", false
+		}
+		return Resolve(st.Val), fieldName(fa.X.Type(), fa.Field), true
+	}
+	return nil, "", false
 }
 
 func uniqueMakeClosure(fn *ssa.Function) *ssa.MakeClosure {
